@@ -275,12 +275,18 @@ func (e *EvalBinaryNode) eval(scope *Scope, executionState ExecutionState) (resu
 	if err != nil {
 		if typeGuardErr, isTypeGuardError := err.error.(ErrTypeGuardFailed); isTypeGuardError {
 			// Fix the type info, thanks to the type guard info
+			oldLeftType, oldRightType := e.leftType, e.rightType
 			if err.IsLeft {
 				e.leftType = typeGuardErr.ActualType
 			}
 
 			if err.IsRight {
 				e.rightType = typeGuardErr.ActualType
+			}
+			if e.leftType == oldLeftType && e.rightType == oldRightType {
+				// The guard told us nothing new (e.g. -'s', a unary operator that does not apply
+				// to its constant operand): trying again would recurse until the stack overflows.
+				return boolFalseResultContainer, err
 			}
 
 			// redefine the evaluation fn
